@@ -18,6 +18,7 @@ def check(ctx):
                        "inspected (origins show only clone/to_vec/into), equality of contents is a runtime fact.")
     facts = ctx.facts("E")
     provrules.rule_pseudo_spans(ctx, facts, "R1")
+    provrules.rule_attachments_are_new_entries(ctx, facts, "R1")
     provrules.rule_amend_routes(ctx, facts, "R2")
     provrules.rule_mount(ctx, facts, "R3")
     provrules.rule_pairs_keep_orientation(ctx, facts, "R7")
